@@ -157,6 +157,9 @@ int main(int argc, char** argv) {
   std::vector<ApiGroup> lgroups = api_groups(ol);
   std::stable_sort(lgroups.begin(), lgroups.end(), [](const ApiGroup& a, const ApiGroup& b) { return a.N > b.N; });
   ctx.parallel(lgroups.size(), [&](uint64_t gi) { run_group(lgroups[gi], ol, [&](ApiCase& c) { four_runs(ctx, c, 4); }); }, "module entry points, large ring dimensions");
+  BoxOpts ow = wide_layer(o.cf);
+  std::vector<ApiGroup> wgroups = api_groups(ow);
+  ctx.parallel(wgroups.size(), [&](uint64_t gi) { run_group(wgroups[gi], ow, [&](ApiCase& c) { four_runs(ctx, c, 2); }); }, "module entry points, wide shapes");
   // strides are caller-chosen 64-bit values: limb offsets beyond 32-bit element / byte arithmetic.  The vector's extent is reserved
   // PROT_NONE, only the limbs are accessible: an access computed with a truncated offset faults or lands in a canary
   {
